@@ -77,16 +77,22 @@ def _harness_gomod(repo):
 
 def build_vh(race=False, repo=None):
     """Build harness/cmd/vh against the *current working tree* of the repo,
-    with the verif build tag (hooks on)."""
+    with the verif build tag (hooks on).  A tree other than /repo (seeded-change
+    self-tests) gets its own module file and its own binary, so that such a run
+    never disturbs a check of /repo running at the same time."""
     repo = repo or REPO
-    os.makedirs(BUILD, exist_ok=True)
-    gm = os.path.join(HARNESS, "go.mod")
+    alt = os.path.abspath(repo) != os.path.abspath(os.environ.get("VERIF_REPO", "/repo"))
+    outdir = os.path.join(BUILD, "alt") if alt else BUILD
+    os.makedirs(outdir, exist_ok=True)
+    gm = os.path.join(outdir, "go.mod") if alt else os.path.join(HARNESS, "go.mod")
     want = _harness_gomod(repo)
     if not os.path.exists(gm) or open(gm).read() != want:
         open(gm, "w").write(want)
-    shutil.copyfile(os.path.join(repo, "go.sum"), os.path.join(HARNESS, "go.sum"))
-    out = os.path.join(BUILD, "vh-race" if race else "vh")
+    shutil.copyfile(os.path.join(repo, "go.sum"), gm[:-4] + ".sum")
+    out = os.path.join(outdir, "vh-race" if race else "vh")
     cmd = ["go", "build", "-tags", "verif", "-o", out]
+    if alt:
+        cmd += ["-modfile", gm]
     if race:
         cmd.insert(2, "-race")
     cmd.append("./cmd/vh")
